@@ -19,11 +19,11 @@ for p in props:
     eng = c.get("engine", "lunarcheck")
     if eng == "lunarcheck":
         q = f"./bin/lunarcheck -p {pid} -tier quick"
-        t = f"./bin/lunarcheck -p {pid} -tier thorough"
+        t = f"python3 tools/thorough.py {pid}"
         rp = "./bin/lunarcheck -explain {path}"
     else:
         q = f"python3 pycheck/c19.py --tier quick"
-        t = f"python3 pycheck/c19.py --tier thorough"
+        t = f"python3 tools/thorough.py {pid}"
         rp = "python3 pycheck/c19.py --explain {path}"
     checks.append({
         "property_id": pid, "quick_cmd": q, "thorough_cmd": t,
@@ -32,7 +32,7 @@ for p in props:
         "level_note": NOTE, "technique": c["technique"]})
 m = {
  "version": 1,
- "setup_cmd": f"cd /verif/checker && {ENV} go build -o /verif/bin/lunarcheck ./cmd/lunarcheck",
+ "setup_cmd": f"cd /verif/checker && {ENV} go build -o /verif/bin/ ./cmd/lunarcheck ./cmd/mutgen ./cmd/renamer",
  "hooks": {"guard": "verif", "enable": "none: the machinery is purely static and never builds lunar with instrumentation; no hook commits exist",
            "baseline_off_cmd": "/verif/tools/baseline.sh /repo", "source_commits": [], "add_only": True},
  "engines": [
@@ -42,7 +42,7 @@ m = {
     "kind_free_text": "Python ast rules for the interceptor (C19)"}],
  "checks": checks,
  "not_applicable": na,
- "notes": "All claims are level 'other': static decision of structural necessary conditions, stated per property in level_claimed.text; clause-level not-applicable parts are listed in DESIGN.md section 6. Genuine defects found are in /verif/known_findings.json (fixed: entries name the fix commit in /repo)."
+ "notes": "All claims are level 'other': static decision of structural necessary conditions, stated per property in level_claimed.text; clause-level not-applicable parts are listed in DESIGN.md section 6. quick = every obligation of the property on /repo's current working tree; thorough = the same verdict plus static analysis of scratch variants of the current tree (confirmed seeded changes must be reported, a rename-only variant must be silent, sampled syntactic mutants of the anchored functions measure rule liveness - DESIGN.md section 11); variants never change the exit code. Genuine defects found are in /verif/known_findings.json (fixed: entries name the fix commit in /repo)."
 }
 json.dump(m, open(os.path.join(V, "MANIFEST.json"), "w"), indent=1)
 print("claimed", len(checks), "n/a", len(na))
